@@ -1122,6 +1122,9 @@ func runC03(c *Ctx) {
 								c.Undecided("no SSA function for the token switch in %s", site)
 							}
 							nilEdges := CallTrueEdges(fn, func(call *ssa.Call) bool {
+								if CalleeName(&call.Call) == irPkg+".Const.IsNil" {
+									return true
+								}
 								if callee := call.Call.StaticCallee(); callee != nil {
 									return isNilTest(callee)
 								}
